@@ -4,6 +4,7 @@ import (
 	"bytes"
 	"encoding/json"
 	"fmt"
+	"hash/fnv"
 	"os"
 	"path/filepath"
 	"sort"
@@ -152,7 +153,7 @@ func checkC20(r *kit.Run) {
 		r.Fatal("Trim model: %v\n%s", err, res.Tail(20))
 	}
 	r.AddTLC("Trim packages", res)
-	var pkgs, trimmedSomething, errPkgs, canary, caught int64
+	var pkgs, trimmedSomething, errPkgs, canary, caught, skipped int64
 	n, err := kit.ForEachState(res.DumpPath, nil, 8, func(w int, st tlaval.State) {
 		var sdecl, ddecl []string
 		for _, i := range tlaval.IntSet(st["schema"]) {
@@ -169,6 +170,16 @@ func checkC20(r *kit.Run) {
 			srcs = []string{"package p\n" + strings.Join(sdecl, "\n") + "\n" + strings.Join(ddecl, "\n") + "\n"}
 		}
 		key := fmt.Sprintf("schemas=%v data=%v split=%v", tlaval.IntSet(st["schema"]), ddecl, split)
+		if len(ddecl) >= 3 {
+			// three data declarations x all schema variants is ~45 k packages (two trims each through
+			// the binary): a quarter of them, chosen by the seed, keeps the thorough tier under an hour
+			h := fnv.New32a()
+			h.Write([]byte(key))
+			if int64(h.Sum32()%4) != r.Seed%4 {
+				atomic.AddInt64(&skipped, 1)
+				return
+			}
+		}
 		atomic.AddInt64(&pkgs, 1)
 		before, _, _, err := trimEval(srcs)
 		if err != nil {
@@ -226,6 +237,7 @@ func checkC20(r *kit.Run) {
 	r.Set("traces_validated_against_impl", n)
 	r.Set("evaluations", int(pkgs))
 	r.Set("packages_where_trim_removed_something", int(trimmedSomething))
+	r.Set("three_data_packages_left_to_other_seeds", int(skipped))
 	r.Set("erroneous_packages_refused", int(errPkgs))
 	r.Set("distinct_nontrivial", int(trimmedSomething))
 	r.Set("canaries_rejected", int(caught))
